@@ -308,6 +308,26 @@ def design_model(out, wd):
         raise ToolError(f"TLC Cleanup: violated={r.violated} error={r.error} ({r.out})")
     out.add_tlc("Cleanup_design_model", r, {k: (sorted(v) if isinstance(v, set) else v) for k, v in bounds.items()})
     small = dict(files, MaxEdits=3, MaxCrash=1)
+    # specification -> implementation: every crash image the model reaches (MC_Cleanup prints them with what its Reopen makes of
+    # them) is built with real tables, logs and manifest fragments and reopened by the real store
+    emit = small if vlib.tier() == "quick" else dict(files, MaxEdits=4, MaxCrash=1)
+    re_ = run_tlc("MC_Cleanup", cfg_text(constants=dict(emit, CrossRecreate=False, Dev=set()), invariants=CLEANUP_INV + ["Emit"]), wd, "cleanup_emit", workers=8, timeout=6000, heap="24g")
+    if not re_.ok():
+        raise ToolError(f"TLC MC_Cleanup: violated={re_.violated} error={re_.error} ({re_.out})")
+    shards = 8
+    res = vlib.run_vh_parallel([["cleanup-replay", re_.out, os.path.join(wd, f"clscr{i}"), "0", str(shards), str(i)] for i in range(shards)], timeout=3000)
+    images = 0
+    for x in res:
+        if x.get("crashed"):
+            raise ToolError(f"cleanup-replay died: {x}")
+        images += x.get("evaluations", 0)
+        for v in x.get("violations", [])[:2]:
+            path = vlib.save_replay("C08", "image", v)
+            out.violation(path, f"crash image reopened by the real store: {json.dumps(v['mismatch'])[:400]}")
+    if images == 0:
+        raise ToolError("MC_Cleanup emitted no crash image")
+    out.traces += images
+    out.extra["crash_images_reopened"] = images
     controls = []
     for dev, want, what in CLEANUP_NEG:
         rn = run_tlc("Cleanup", cfg_text(constants=dict(small, CrossRecreate=False, Dev={dev}), invariants=CLEANUP_INV), wd, f"cleanup_neg_{dev}", workers=4, timeout=900)
@@ -328,6 +348,14 @@ def check_prop(prop, replay=None):
     if prop == "C08" and not replay:
         design_model(out, wd)
     rng = random.Random(vlib.seed() * 977 + (2 if prop == "C02" else 8))
+    if replay and "image" in json.load(open(replay)):
+        v = json.load(open(replay))
+        ip = os.path.join(wd, "image.out")
+        open(ip, "w").write('<<"IMG", ' + json.dumps(json.dumps(v["image"])) + ">>\n")
+        x = vlib.run_vh_parallel([["cleanup-replay", ip, os.path.join(wd, "clscr")]], timeout=600)[0]
+        for m in x.get("violations", []):
+            out.violation(replay, f"crash image reopened by the real store: {json.dumps(m['mismatch'])[:400]}")
+        return out.finish("model_checking", ASSUMPTIONS)
     if replay:
         docs = [json.load(open(replay))["doc"]]
     else:
